@@ -97,7 +97,13 @@ fn dstyle(d: &mut Dec) -> PrimitiveStyle<Rgb888> {
 
 fn angle(d: &mut Dec) -> f32 {
     match d.u(0, 3) {
-        0 => d.pick(&[0, 90, 180, 270, 360, 720, -90, -180, -360, -720, 359, 361, 1, -1]) as f32,
+        // (entry 2k is the k-th of the original integers; the odd entries lie a hair from zero, a quadrant
+        // boundary or a full turn, down to the smallest subnormal, and `from_radians` values that are not
+        // a float number of degrees)
+        0 => d.pick(&[
+            0.0f32, -1e-5, 90.0, 1e-5, 180.0, -1e-7, 270.0, 89.99999, 360.0, 90.00001, 720.0, 359.99997, -90.0, -359.99997, -180.0, 180.00002, -360.0, -1.0e-38, -720.0, 719.9999, 359.0,
+            -1.4e-45, 361.0, 1.4e-45, 1.0, -5.729578e-6, -1.0, 5.729578e-6,
+        ]),
         1 => d.i(-720, 720) as f32,
         _ => d.i(-72000, 72000) as f32 / 100.0,
     }
@@ -527,16 +533,30 @@ fn image_new_case(d: &mut Dec, cx: &mut Cx) -> Res {
 
 fn framebuffer_case(d: &mut Dec, cx: &mut Cx) -> Res {
     let pts = [far_point(d), far_point(d), far_point(d), far_point(d), far_point(d), far_point(d)];
-    let which = d.u(0, 5);
+    let which = d.u(0, 9);
     let area = Rectangle::new(pt(d), Size::new(mag(d), d.u(0, 40)));
     cx.describe(|| format!("framebuffer variant {} (9x3 / 5x2): set_pixel / pixel / draw_iter at {:?}, fill_solid {:?}", which, pts, area));
     cx.class("framebuffer");
     cx.nontrivial(pts.iter().any(|p| p.x < 0 || p.y < 0 || p.x > 9 || p.y > 3));
     macro_rules! go {
-        ($c:ty, $r:ty, $o:ty, $w:expr, $h:expr, $bpp:expr, $col:expr) => {{
+        ($c:ty, $r:ty, $o:ty, $w:expr, $h:expr, $bpp:expr, $col:expr) => {
+            go!($c, $r, $o, $w, $h, $bpp, $col, 0)
+        };
+        // ($extra: spare bytes at the end of the buffer, also a number that is not a multiple of the pixel size)
+        ($c:ty, $r:ty, $o:ty, $w:expr, $h:expr, $bpp:expr, $col:expr, $extra:expr) => {{
             let r = counted(|| {
                 catch(|| -> Result<(), String> {
-                    let mut fb = Framebuffer::<$c, $r, $o, $w, $h, { ($w * $bpp + 7) / 8 * $h }>::new();
+                    let mut fb = Framebuffer::<$c, $r, $o, $w, $h, { ($w * $bpp + 7) / 8 * $h + $extra }>::new();
+                    // fills of exactly the whole framebuffer, of more than it, and a filled rectangle drawable
+                    {
+                        use embedded_graphics::primitives::{Primitive, PrimitiveStyle};
+                        let whole = fb.bounding_box();
+                        fb.fill_solid(&whole, $col).unwrap();
+                        fb.fill_solid(&whole.offset(2), $col).unwrap();
+                        whole.into_styled(PrimitiveStyle::with_fill($col)).draw(&mut fb).unwrap();
+                        whole.offset(1).into_styled(PrimitiveStyle::with_fill($col)).draw(&mut fb).unwrap();
+                        fb.fill_contiguous(&whole, core::iter::repeat($col).take(($w * $h) as usize)).unwrap();
+                    }
                     for p in &pts {
                         fb.set_pixel(*p, $col);
                         let _ = fb.pixel(*p);
@@ -560,7 +580,11 @@ fn framebuffer_case(d: &mut Dec, cx: &mut Cx) -> Res {
         2 => go!(Gray4, RawU4, BigEndianLsb0, 9, 3, 4, Gray4::new(9)),
         3 => go!(Gray8, RawU8, LittleEndianMsb0, 9, 3, 8, Gray8::new(200)),
         4 => go!(Rgb565, RawU16, BigEndianLsb0, 5, 2, 16, Rgb565::new(3, 4, 5)),
-        _ => go!(Rgb888, RawU24, LittleEndianMsb0, 9, 3, 24, Rgb888::new(3, 4, 5)),
+        5 => go!(Rgb888, RawU24, LittleEndianMsb0, 9, 3, 24, Rgb888::new(3, 4, 5)),
+        6 => go!(Rgb565, RawU16, LittleEndianMsb0, 5, 2, 16, Rgb565::new(3, 4, 5), 1),
+        7 => go!(Rgb888, RawU24, BigEndianLsb0, 4, 4, 24, Rgb888::new(3, 4, 5), 16),
+        8 => go!(Rgb888, RawU24, LittleEndianMsb0, 9, 3, 24, Rgb888::new(3, 4, 5), 2),
+        _ => go!(Gray4, RawU4, LittleEndianMsb0, 9, 3, 4, Gray4::new(9), 3),
     }
 }
 
